@@ -1,4 +1,5 @@
 import MosnVerif.Model.Route
+import MosnVerif.Lemmas.RouteHdr
 /-!
 Lemmas for C04 (core Lean only).
 
@@ -984,26 +985,29 @@ def ctxPath (ctx : Str → Option Str) : Option Str :=
   | some p => if p = [] then none else some p
   | none => none
 
-theorem pathMatch_eq (rx : RxOracle) (ctx hdr : Str → Option Str) (hm : HttpHeaderMatcher) (path : Str) :
-    pathMatch rx ctx hdr hm path =
+theorem pathMatch_eq (rx : RxOracle) (pq : Str → List (Str × Str)) (ctx hdr : Str → Option Str) (hm : HttpHeaderMatcher) (path : Str) :
+    pathMatch rx pq ctx hdr ⟨(), hm, none⟩ path =
       (httpMatches rx ctx hdr hm && match ctxPath ctx with | some p => equalFold p path | none => false) := by
   unfold pathMatch ctxPath
+  rw [matchRoute_none]
   cases httpMatches rx ctx hdr hm <;> cases hc : ctx varPath with
   | none => simp
   | some p => by_cases hp : p = [] <;> simp [hp]
 
-theorem prefixMatch_eq (rx : RxOracle) (ctx hdr : Str → Option Str) (hm : HttpHeaderMatcher) (pre : Str) :
-    prefixMatch rx ctx hdr hm pre =
+theorem prefixMatch_eq (rx : RxOracle) (pq : Str → List (Str × Str)) (ctx hdr : Str → Option Str) (hm : HttpHeaderMatcher) (pre : Str) :
+    prefixMatch rx pq ctx hdr ⟨(), hm, none⟩ pre =
       (httpMatches rx ctx hdr hm && match ctxPath ctx with | some p => hasPrefix p pre | none => false) := by
   unfold prefixMatch ctxPath
+  rw [matchRoute_none]
   cases httpMatches rx ctx hdr hm <;> cases hc : ctx varPath with
   | none => simp
   | some p => by_cases hp : p = [] <;> simp [hp]
 
-theorem regexMatch_eq (rx : RxOracle) (ctx hdr : Str → Option Str) (hm : HttpHeaderMatcher) (id : RegexId) :
-    regexMatch rx ctx hdr hm id =
+theorem regexMatch_eq (rx : RxOracle) (pq : Str → List (Str × Str)) (ctx hdr : Str → Option Str) (hm : HttpHeaderMatcher) (id : RegexId) :
+    regexMatch rx pq ctx hdr ⟨(), hm, none⟩ id =
       (httpMatches rx ctx hdr hm && match ctxPath ctx with | some p => rx id p | none => false) := by
   unfold regexMatch ctxPath
+  rw [matchRoute_none]
   cases httpMatches rx ctx hdr hm <;> cases hc : ctx varPath with
   | none => simp
   | some p => by_cases hp : p = [] <;> simp [hp]
@@ -1026,50 +1030,12 @@ theorem rpcMatch_eq (rx : RxOracle) (hdr : Str → Option Str) (fast : Str) (hm 
 
 /-! ## D. `NewRouteBase` / `Match` refine the declarative rule semantics -/
 
-def varsOf (o : Option Str) : List (Str × Str) :=
-  match o with
-  | none => []
-  | some m => [(varMethod, m)]
-
-theorem mapSet_varsOf (o : Option Str) (v : Str) : mapSet (varsOf o) varMethod v = varsOf (some v) := by
-  cases o <;> simp [varsOf, mapSet]
-
-theorem createHttp_eq : ∀ (hs : List HeaderCfg) (o : Option Str) (H : List KeyValueData),
-    createHttp hs ⟨varsOf o, H⟩ =
-      ⟨varsOf (match methodOf hs with | some m => some m | none => o),
-       H ++ (hs.filter (fun h => decide (h.name ≠ methodName))).filterMap newKeyValueData⟩
-  | [], o, H => by simp [createHttp, methodOf]
-  | h :: r, o, H => by
-    simp only [createHttp]
-    by_cases hm : h.name = methodName
-    · simp only [hm, if_true, mapSet_varsOf]
-      rw [createHttp_eq r (some h.value) H]
-      have hm' : h.name = ['m', 'e', 't', 'h', 'o', 'd'] := hm
-      simp only [methodOf, hm', if_true, List.filter_cons, ne_eq, methodName, not_true_eq_false, decide_false,
-        Bool.false_eq_true, if_false]
-      cases methodOf r <;> rfl
-    · have hm' : ¬ h.name = ['m', 'e', 't', 'h', 'o', 'd'] := hm
-      simp only [hm, if_false]
-      cases hk : newKeyValueData h with
-      | none =>
-        simp only []
-        rw [createHttp_eq r o H]
-        simp only [methodOf, hm', if_false, List.filter_cons, ne_eq, hm, not_false_eq_true, decide_true, if_true,
-          List.filterMap_cons, hk]
-        cases methodOf r <;> rfl
-      | some kv =>
-        simp only []
-        rw [createHttp_eq r o (H ++ [kv])]
-        simp only [methodOf, hm', if_false, List.filter_cons, ne_eq, hm, not_false_eq_true, decide_true, if_true,
-          List.filterMap_cons, hk, List.append_assoc, List.singleton_append]
-        cases methodOf r <;> rfl
-
 theorem kv_all_eq (rx : RxOracle) (req : Req) : ∀ l : List HeaderCfg,
-    (l.filterMap newKeyValueData).all (kvHolds rx req.hdr) = l.all (headerHolds rx req)
+    (l.filterMap newKV).all (kvHolds rx req.hdr) = l.all (headerHolds rx req)
   | [] => rfl
   | h :: r => by
     have ih := kv_all_eq rx req r
-    simp only [List.filterMap_cons, List.all_cons, newKeyValueData, headerHolds]
+    simp only [List.filterMap_cons, List.all_cons, newKV, headerHolds, ← hdr_spec]
     by_cases hr : h.regex
     · by_cases hk : h.rx.ok
       · simp only [hr, hk, if_true, List.all_cons, kvHolds, stringMatch_eq, rxMatch, ih]
@@ -1080,20 +1046,25 @@ theorem kv_all_eq (rx : RxOracle) (req : Req) : ∀ l : List HeaderCfg,
       | none => simp
       | some v => simp
 
-theorem createCommon_all (rx : RxOracle) (req : Req) (hs : List HeaderCfg) :
-    commonMatches rx req.hdr (createCommon hs) = hs.all (headerHolds rx req) := by
-  rw [commonMatches_eq, createCommon, kv_all_eq]
+/-- **the RPC-style matcher** (`CreateCommonHeaderMatcher` + `commonHeaderMatcherImpl.Matches`): the conjunction of the
+configured header matchers, each name matched the way the request's header map matches names -/
+theorem createCommon_all' (rx : RxOracle) (req : Req) (hs : List HeaderCfg) :
+    commonMatches rx req.hdr (hs.filterMap newKV) = hs.all (headerHolds rx req) := by
+  rw [commonMatches_eq, kv_all_eq]
 
+theorem createCommon_all (rx : RxOracle) (req : Req) (hs : List HeaderCfg) :
+    commonMatches rx req.hdr (createCommonHeaderMatcher hs) = hs.all (headerHolds rx req) := by
+  rw [gen_createCommon, createCommon_all']
+
+/-- **the HTTP matcher** (`CreateHTTPHeaderMatcher` + `httpHeaderMatcherImpl.Matches`) -/
 theorem http_refines (rx : RxOracle) (req : Req) (hs : List HeaderCfg) :
-    httpMatches rx req.var req.hdr (createHttp hs ⟨[], []⟩) = httpHeadersHold rx req hs := by
-  have := createHttp_eq hs none []
-  simp only [varsOf] at this
-  rw [this, httpMatches_eq, commonMatches_eq]
-  simp only [List.nil_append, kv_all_eq]
+    httpMatches rx req.var req.hdr (createHTTPHeaderMatcher hs) = httpHeadersHold rx req hs := by
+  rw [gen_createHttp, httpMatches_eq, commonMatches_eq]
+  simp only [kv_all_eq]
   unfold httpHeadersHold
   cases methodOf hs with
-  | none => simp only [List.all_nil, Bool.true_and]; rfl
-  | some m => simp only [List.all_cons, List.all_nil, Bool.and_true]; rfl
+  | none => simp only [varsOf, List.all_nil, Bool.true_and]; rfl
+  | some m => simp only [varsOf, List.all_cons, List.all_nil, Bool.and_true]; rfl
 
 theorem ctxPath_eq (req : Req) : ctxPath req.var = reqPath req := rfl
 
@@ -1224,7 +1195,7 @@ theorem rule_refines (rx : RxOracle) (req : Req) {m : MatchCfg} {rule : Rule} (h
   · rename_i hp
     injection h with h; subst h
     rw [if_pos hp]
-    simp only [matchRule, prefixMatch_eq, http_refines, ctxPath_eq, hasPrefix]
+    simp only [matchRule, gen_newBaseHTTP, prefixMatch_eq, http_refines, ctxPath_eq, hasPrefix]
     exact Bool.and_comm _ _
   · rename_i hp
     rw [if_neg hp]
@@ -1232,7 +1203,7 @@ theorem rule_refines (rx : RxOracle) (req : Req) {m : MatchCfg} {rule : Rule} (h
     · rename_i hpa
       injection h with h; subst h
       rw [if_pos hpa]
-      simp only [matchRule, pathMatch_eq, http_refines, ctxPath_eq, equalFold]
+      simp only [matchRule, gen_newBaseHTTP, pathMatch_eq, http_refines, ctxPath_eq, equalFold]
       exact Bool.and_comm _ _
     · rename_i hpa
       rw [if_neg hpa]
@@ -1240,7 +1211,7 @@ theorem rule_refines (rx : RxOracle) (req : Req) {m : MatchCfg} {rule : Rule} (h
       · rename_i r hre
         split at h
         · injection h with h; subst h
-          simp only [matchRule, regexMatch_eq, http_refines, ctxPath_eq]
+          simp only [matchRule, gen_newBaseHTTP, regexMatch_eq, http_refines, ctxPath_eq]
           exact Bool.and_comm _ _
         · cases h
       · rename_i hre
@@ -1264,13 +1235,13 @@ theorem rule_refines (rx : RxOracle) (req : Req) {m : MatchCfg} {rule : Rule} (h
           rename_i hdsl
           rw [if_neg hdsl]
           injection h with h; subst h
-          simp only [createRpc, matchRule, rpcMatch_eq]
+          simp only [matchRule, gen_createRpc, fastOf, rpcMatch_eq]
           have hkey : rpcRouteMatchKey = ['s', 'e', 'r', 'v', 'i', 'c', 'e'] := rfl
           cases hh : m.headers with
-          | nil => simp [createCommon_all]
+          | nil => simp [commonMatches_eq]
           | cons a r =>
             cases r with
-            | cons b r2 => simp [createCommon_all]
+            | cons b r2 => simp [createCommon_all']
             | nil =>
               simp only []
               by_cases hn : a.name = rpcRouteMatchKey
@@ -1282,23 +1253,23 @@ theorem rule_refines (rx : RxOracle) (req : Req) {m : MatchCfg} {rule : Rule} (h
                   by_cases hv : a.value = []
                   · have hc : ¬ (a.name = ['s', 'e', 'r', 'v', 'i', 'c', 'e'] ∧ a.regex = false ∧ a.value ≠ []) := by
                       simp [hv]
-                    rw [if_neg hc, if_pos hv, createCommon_all]
+                    rw [if_neg hc, if_pos hv, createCommon_all']
                     simp
                   · have hc : (a.name = ['s', 'e', 'r', 'v', 'i', 'c', 'e'] ∧ a.regex = false ∧ a.value ≠ []) :=
                       ⟨hn', hr, hv⟩
-                    rw [if_pos hc, if_neg hv, hkey, hn']
-                    cases req.hdr ['s', 'e', 'r', 'v', 'i', 'c', 'e'] <;> simp
+                    rw [if_pos hc, if_neg hv, hkey, hn', hdr_spec]
+                    cases hdrValue req ['s', 'e', 'r', 'v', 'i', 'c', 'e'] <;> simp
                 · have hf : (if a.name = rpcRouteMatchKey ∧ a.regex = false then a.value else []) = [] :=
                     if_neg (fun hc2 => hr hc2.2)
                   simp only [hf]
                   have hc : ¬ (a.name = ['s', 'e', 'r', 'v', 'i', 'c', 'e'] ∧ a.regex = false ∧ a.value ≠ []) := by
                     intro hc; exact hr hc.2.1
-                  rw [if_neg hc, if_pos trivial, createCommon_all]
+                  rw [if_neg hc, if_pos trivial, createCommon_all']
                   simp
               · have hc : ¬ (a.name = ['s', 'e', 'r', 'v', 'i', 'c', 'e'] ∧ a.regex = false ∧ a.value ≠ []) := by
                   intro hc; exact hn (hc.1.trans hkey.symm)
                 rw [if_neg hc]
-                simp [hn, createCommon_all]
+                simp [hn, createCommon_all']
 
 /-- rule lists built by `NewVirtualHostImpl` match pointwise like the configured routes -/
 theorem mkRules_findIdx (rx : RxOracle) (req : Req) : ∀ (ms : List MatchCfg) (rules : List Rule),
